@@ -60,12 +60,12 @@ def Tables.same (a b : Tables) : Bool :=
 
 def faceIsLocal (fs : List Face) (id : Nat) : Bool :=
   match faceGet fs id with
-  | some f => f.scope == 1
+  | some f => f.isLocal
   | none => false
 
 def authorised (lh : Bool) (faces : List Face) (face : Nat) (name : Name) : Bool :=
   (lhPrefix.isPrefixOf name && faceIsLocal faces face) ||
-  (lh && lpPrefix.isPrefixOf name && name[2]? == some (gc "rib") && (faceGet faces face).isSome)
+  (lh && lpPrefix.isPrefixOf name && (name[2]?.map modOf) == some Mod.rib && (faceGet faces face).isSome)
 
 /-! ### verbs and what their parameters describe -/
 
@@ -76,16 +76,17 @@ deriving DecidableEq, Repr
 def verbOf (name : Name) : Option Verb :=
   match name[2]?, name[3]? with
   | some m, some v =>
-    if m == gc "rib" && v == gc "register" then some .ribRegister
-    else if m == gc "rib" && v == gc "unregister" then some .ribUnregister
-    else if m == gc "fib" && v == gc "add-nexthop" then some .fibAdd
-    else if m == gc "fib" && v == gc "remove-nexthop" then some .fibRemove
-    else if m == gc "strategy-choice" && v == gc "set" then some .scSet
-    else if m == gc "strategy-choice" && v == gc "unset" then some .scUnset
-    else if m == gc "cs" && v == gc "config" then some .csConfig
-    else if m == gc "faces" && v == gc "update" then some .faceUpdate
-    else if m == gc "faces" && v == gc "destroy" then some .faceDestroy
-    else none
+    (match modOf m, wordOf v with
+     | .rib, .register => some .ribRegister
+     | .rib, .unregister => some .ribUnregister
+     | .fib, .addNexthop => some .fibAdd
+     | .fib, .removeNexthop => some .fibRemove
+     | .sc, .set => some .scSet
+     | .sc, .unset => some .scUnset
+     | .cs, .config => some .csConfig
+     | .faces, .update => some .faceUpdate
+     | .faces, .destroy => some .faceDestroy
+     | _, _ => none)
   | _, _ => none
 
 /-- the face a command is about: FaceId if given and non-zero, else the requester -/
@@ -101,7 +102,7 @@ def knownStrategy (s : Name) : Option Name :=
   | [a, b, c, sn] =>
     if [a, b, c] == strategyPrefix then
       (match strategyVersions sn with
-       | some (v :: vs) => some (strategyPrefix ++ [sn, ⟨versionType, encNat ((v :: vs).foldl Nat.max 0)⟩])
+       | some (v :: vs) => some (strategyPrefix ++ [sn, ⟨versionType, encNat (newestVersion (v :: vs))⟩])
        | _ => none)
     else none
   | [a, b, c, sn, vc] =>
@@ -119,17 +120,17 @@ def specMinMtu : Nat := 64
 
 def schemeUpdatable (f : Face) : Bool := f.rscheme != "null" && f.rscheme != "internal"
 
-def specPersOk (f : Face) (p : Nat) : Bool :=
-  if f.rscheme == "ether" then p == 2
-  else if f.rscheme == "udp4" || f.rscheme == "udp6" then p == 0 || p == 2
-  else if f.lscheme == "unix" then p == 0
-  else true
-
 inductive Validity
   | valid        -- must be accepted
   | invalid      -- must be refused with 4xx
   | either       -- the property does not decide
 deriving DecidableEq, Repr
+
+/-- an MTU that cannot carry a packet must be refused, one from `specMinMtu` on accepted -/
+def mtuClass (mtu : Option Nat) : Validity :=
+  match mtu with
+  | some m => if m ≤ specMaxOverhead then .invalid else if m < specMinMtu then .either else .valid
+  | none => .valid
 
 /-- is the command well-formed w.r.t. the tables `t` (the face table matters)? -/
 def validity (t : Tables) (inFace : Nat) (v : Verb) (hasParamsComp : Bool) (p : Params) : Validity :=
@@ -156,11 +157,9 @@ def validity (t : Tables) (inFace : Nat) (v : Verb) (hasParamsComp : Bool) (p : 
        | none => .invalid
        | some f =>
          if !schemeUpdatable f then .invalid
-         else if a.flags.isSome != a.mask.isSome then .invalid
-         else if (match a.pers with | some pv => !specPersOk f pv | none => false) then .invalid
-         else (match a.mtu with
-               | some m => if m ≤ specMaxOverhead then .invalid else if m < specMinMtu then .either else .valid
-               | none => .valid))
+         else if !flagsMaskOk a.flags a.mask then .invalid
+         else if !persArgOk f a.pers then .invalid
+         else mtuClass a.mtu)
     | .faceDestroy => if a.faceId.isSome then .valid else .invalid
 
 /-- the route / next hop / strategy / capacity / face settings the parameters describe, applied to
@@ -177,14 +176,10 @@ def specFaceAfter (f : Face) (a : Args) : Face :=
   let f := match a.pers with | some p => { f with pers := p } | none => f
   let f := match a.bcmi with | some b => { f with bcmi := b } | none => f
   let f := match a.dct with | some d => { f with dct := d } | none => f
-  let f := match a.mtu with | some m => { f with mtu := Nat.min m 8800 } | none => f
+  let f := match a.mtu with | some m => { f with mtu := if m > 8800 then 8800 else m } | none => f
   match a.flags, a.mask with
-  | some fl, some mk =>
-    { f with localFields := if mk % 2 == 1 then fl % 2 == 1 else f.localFields,
-             congMark := if mk / 4 % 2 == 1 then fl / 4 % 2 == 1 else f.congMark }
+  | some fl, some mk => applyFlags f fl mk
   | _, _ => f
-
-def specFlags (f : Face) : Nat := (if f.localFields then 1 else 0) + (if f.congMark then 4 else 0)
 
 def effect (t : Tables) (inFace : Nat) (v : Verb) (a : Args) : Effect :=
   let n := a.name.getD []
@@ -215,7 +210,7 @@ def effect (t : Tables) (inFace : Nat) (v : Verb) (a : Args) : Effect :=
      | some f =>
        let f' := specFaceAfter f a
        { t := { t with faces := faceSet t.faces f' },
-         echo := { faceId := some tf, pers := some f'.pers, mtu := some f'.mtu, flags := some (specFlags f'),
+         echo := { faceId := some tf, pers := some f'.pers, mtu := some f'.mtu, flags := some (faceFlags f'),
                    bcmi := some f'.bcmi, dct := some f'.dct } }
      | none => { t := t, echo := {} })
   | .faceDestroy =>
@@ -258,41 +253,71 @@ structure Obs where
   out : Outcome
   after : Tables
 
+def Obs.auth (o : Obs) : Bool := authorised o.lh o.before.faces o.face o.name
+def Obs.changed (o : Obs) : Bool := !o.before.same o.after
+def Obs.hasP (o : Obs) : Bool := 5 ≤ o.name.length
+def Obs.requesterGone (o : Obs) : Bool := (faceGet o.after.faces o.face).isNone
+
+/-- live: the daemon survived -/
+def cLive (o : Obs) : Bool := match o.out with | .crash => false | _ => true
+
+/-- authorised: tables differ only if the command was authorised and delivered -/
+def cAuth (o : Obs) : Bool := !o.changed || (o.auth && o.routed)
+
+/-- effect: a 200 answer carries exactly the described effect and echoes it -/
+def cEffect (o : Obs) : Bool :=
+  match o.out with
+  | .ctrl 200 echo =>
+    (match verbOf o.name, o.params with
+     | some v, .args a => (effect o.before o.face v a).matches o.after && echo == (effect o.before o.face v a).echo
+     | some _, .undecodable => false
+     | none, _ => !o.changed)
+  | _ => true
+
+/-- nochange: any other answer (or none, unless the requester destroyed its own face) changes nothing -/
+def cNoChange (o : Obs) : Bool :=
+  match o.out with
+  | .ctrl 200 _ => true
+  | .ctrl _ _ => !o.changed
+  | .none => !o.changed || o.requesterGone
+  | .dataset _ _ _ _ => !o.changed
+  | .crash => true
+
+/-- dataset: the dataset lists the current tables -/
+def cDataset (o : Obs) : Bool :=
+  match o.out with
+  | .dataset _ _ _ d => datasetOk d o.after
+  | _ => true
+
+/-- accepted / refused: well-formed commands get 200, ill-formed ones 4xx -/
+def cValidity (o : Obs) : Bool :=
+  match verbOf o.name with
+  | some v =>
+    if o.auth && o.routed then
+      (match validity o.before o.face v o.hasP o.params, o.out with
+       | .valid, .ctrl c _ => c == 200
+       | .valid, .none => o.requesterGone
+       | .valid, .crash => true
+       | .valid, .dataset _ _ _ _ => false
+       | .invalid, .ctrl c _ => 400 ≤ c && c < 500
+       | .invalid, .crash => true
+       | .invalid, _ => false
+       | .either, _ => true)
+    else true
+  | none => true
+
+/-- usable: the liveness invariants of the tables are preserved -/
+def cUsable (o : Obs) : Bool := !usable o.before || usable o.after
+
 /-- violated clauses (empty = the observation satisfies the property) -/
 def check (o : Obs) : List String :=
-  let auth := authorised o.lh o.before.faces o.face o.name
-  let changed := !o.before.same o.after
-  let verb := verbOf o.name
-  let hasP := 5 ≤ o.name.length
-  let requesterGone := (faceGet o.after.faces o.face).isNone
-  (if o.out matches .crash then ["live"] else []) ++
-  (if changed && !(auth && o.routed) then ["authorised"] else []) ++
-  (match o.out with
-   | .ctrl 200 echo =>
-     (match verb, o.params with
-      | some v, .args a =>
-        let e := effect o.before o.face v a
-        (if e.matches o.after && echo == e.echo then [] else ["effect"])
-      | some _, .undecodable => ["effect"]
-      | none, _ => if changed then ["effect"] else [])
-   | .ctrl _ _ => if changed then ["nochange"] else []
-   | .none => if changed && !requesterGone then ["nochange"] else []
-   | .dataset _ _ _ d => (if changed then ["nochange"] else []) ++ (if datasetOk d o.after then [] else ["dataset"])
-   | .crash => []) ++
-  (match verb with
-   | some v =>
-     if auth && o.routed then
-       (match validity o.before o.face v hasP o.params, o.out with
-        | .valid, .ctrl 200 _ => []
-        | .valid, .none => if requesterGone then [] else ["accepted"]
-        | .valid, .crash => []
-        | .valid, _ => ["accepted"]
-        | .invalid, .ctrl c _ => if 400 ≤ c && c < 500 then [] else ["refused"]
-        | .invalid, .crash => []
-        | .invalid, _ => ["refused"]
-        | .either, _ => [])
-     else []
-   | none => []) ++
-  (if usable o.before && !usable o.after then ["usable"] else [])
+  (if cLive o then [] else ["live"]) ++ (if cAuth o then [] else ["authorised"]) ++
+  (if cEffect o then [] else ["effect"]) ++ (if cNoChange o then [] else ["nochange"]) ++
+  (if cDataset o then [] else ["dataset"]) ++
+  (if cValidity o then [] else
+    [match verbOf o.name with
+     | some v => if validity o.before o.face v o.hasP o.params == .valid then "accepted" else "refused"
+     | none => "refused"]) ++
+  (if cUsable o then [] else ["usable"])
 
 end Ndn.C17
